@@ -36,7 +36,7 @@ def lint_vc2():
     return bad
 
 
-class Timeout(Exception):
+class Timeout(BaseException):  # not an Exception: the code under test may catch Exception broadly
     pass
 
 
@@ -97,6 +97,21 @@ def check_bytes(data, limit=3):
         return ("ok", None)
     finally:
         signal.alarm(0)
+
+
+def corpus_streams():
+    """streams kept from earlier sessions (corpus/C06.json): low-delay streams whose slice_bytes fraction is below one,
+    so that some slices have NO bytes and their bounded blocks a negative length - made once with the real serialiser
+    from edited descriptions; they cannot be produced by the encoder and are therefore stored, not regenerated"""
+    import json, os
+    import common
+
+    p = os.path.join(common.CORPUS_DIR, "C06.json")
+    if not os.path.exists(p):
+        return []
+    with open(p) as f:
+        d = json.load(f)
+    return [bytes.fromhex(h) for k in sorted(d) for h in d[k]]
 
 
 def seed_streams():
@@ -288,7 +303,7 @@ class Prop(object):
 
         trng = ctx.rng("c06trace")
         seeds = seed_streams()
-        streams = [d for d, _ in seeds]
+        streams = [d for d, _ in seeds] + corpus_streams()
         for _ in range(ctx.n(40, 600)):
             cf = G.rand_config(trng)
             try:
@@ -352,7 +367,8 @@ class Prop(object):
         # byte-level round trip on the real code
         ctx.corr_names.append("REAL deserialise -> serialise -> compare bytes -> re-deserialise on conformant streams and their mutations")
         seeds = seed_streams()
-        cases = [(d, None) for d in DIRECTED] + [(s[0], s[1]) for s in seeds]
+        cases = [(d, None) for d in DIRECTED] + [(d, None) for d in corpus_streams()] + [(s[0], s[1]) for s in seeds]
+        ctx.count("bytes:corpus-streams", len(corpus_streams()))
         for _ in range(ctx.n(2500, 40000)):
             data, flat = rng.choice(seeds)
             cases.append((mutate(rng, data, flat), flat))
